@@ -67,7 +67,8 @@ Between(lo, x, hi) == lo \subseteq x /\ x \subseteq hi
 (* the expected post network, given what the post network decided where the statement leaves a choice; returns    *)
 (* <<admissible, expected>>: `admissible` names the violated rule about element presence ("" if none)             *)
 Expected(n, a, p) ==
-    CASE a.op = "net_remove_lanelet" \/ (a.op = "sc_remove_lanelet" /\ a.ref = 0) ->
+    CASE a.op \in {"net_remove_lanelet", "net_remove_lanelet_nortree"} \/ (a.op = "sc_remove_lanelet" /\ a.ref = 0) ->
+            \* (remove_lanelet(id, rtree=False) only defers the rebuild of the spatial index, not the reference clean-up)
             <<"", Restrict(n, n.L \ IdSet(a), n.S, n.T, n.X, n.I)>>
       [] a.op = "sc_remove_lanelet" /\ a.ref = 1 ->
             LET gone == IdSet(a) \cap n.L
